@@ -99,6 +99,7 @@ type vecFile struct {
 	S []Soup
 	N []Nest
 	G map[string][]int
+	X []string // texts near the signature grammar (single-token edits of valid signatures)
 }
 
 func readVectors(path string) *vecFile {
@@ -142,6 +143,12 @@ func readVectors(path string) *vecFile {
 				hlib.Fatal("bad N: %v", err)
 			}
 			f.N = append(f.N, v)
+		case "X":
+			var v string
+			if err := json.Unmarshal(rec.V, &v); err != nil {
+				hlib.Fatal("bad X: %v", err)
+			}
+			f.X = append(f.X, v)
 		case "G":
 			if err := json.Unmarshal(rec.V, &f.G); err != nil {
 				hlib.Fatal("bad G: %v", err)
